@@ -230,6 +230,9 @@ def gen_clip(tier):
         for lo, hi in ((None, 3.0), (-2.0, None), (-4.0, 5.0), (None, None)):
             yield [inp(shape, chunks)], dict(min=lo, max=hi)
     yield [inp((5,), (2,)), inp((5,), (3,)), inp((5,), (5,))], dict(arr=True)
+    # bounds given as 0-d cubed arrays (must stay lazy)
+    yield [inp((5,), (2,)), inp((), ()), inp((), ())], dict(arr=True, sorted_bounds=True)
+    yield [inp((3, 4), (2, 2)), inp((), ()), inp((), ())], dict(arr=True, sorted_bounds=True)
 
 
 def _clip_build(xs, p):
@@ -453,19 +456,30 @@ def gen_diff(tier):
         for axis in range(-1, len(shape) - 1 if len(shape) > 1 else 0):
             for n in (1, 2):
                 yield [inp(shape, chunks)], dict(axis=axis, n=n)
-    yield [inp((5,), (2,)), inp((2,), (1,)), inp((1,), (1,))], dict(axis=0, n=1, pa=True)
+    # prepend / append (concatenated before differencing: chunk sizes along the axis must match)
+    for n in (1, 2):
+        for which in ("pa", "p", "a"):
+            yield [inp((6,), (2,)), inp((2,), (2,)), inp((4,), (2,))], dict(axis=0, n=n, pa=which)
+            yield [inp((5,), (5,)), inp((5,), (5,)), inp((5,), (5,))], dict(axis=0, n=n, pa=which)
+            yield [inp((4, 3), (2, 3)), inp((2, 3), (2, 3)), inp((2, 3), (2, 3))], dict(axis=0, n=n, pa=which)
+            yield [inp((3, 4), (3, 2)), inp((3, 2), (3, 2)), inp((3, 2), (3, 2))], dict(axis=1, n=n, pa=which)
+
+
+def _diff_kw(args, p):
+    kw = {}
+    if p.get("pa") in ("pa", "p", True):
+        kw["prepend"] = args[1]
+    if p.get("pa") in ("pa", "a", True):
+        kw["append"] = args[2]
+    return kw
 
 
 def _diff_build(xs, p):
-    if p.get("pa"):
-        return xp().diff(xs[0], axis=p["axis"], n=p["n"], prepend=xs[1], append=xs[2])
-    return xp().diff(xs[0], axis=p["axis"], n=p["n"])
+    return xp().diff(xs[0], axis=p["axis"], n=p["n"], **_diff_kw(xs, p))
 
 
 def _diff_ref(ns, p):
-    if p.get("pa"):
-        return np.diff(ns[0], axis=p["axis"], n=p["n"], prepend=ns[1], append=ns[2])
-    return np.diff(ns[0], axis=p["axis"], n=p["n"])
+    return np.diff(ns[0], axis=p["axis"], n=p["n"], **_diff_kw(ns, p))
 
 
 reg("diff", gen_diff, _diff_build, _diff_ref, group="scan")
